@@ -3,11 +3,7 @@
   * instances of `IsiLaws` (non-vacuity of the step-6 theorem): every location–scale family with `LocScaleLaws`
     for a variable without bounds (tas / psl / rlds), and the uniform family `U[floc, floc + fscale]` — a genuine
     bounded family — for a variable with both bounds and thresholds (hurs-like);
-  * the left-censored gamma precipitation model `ibicus.utils.gen_PrecipitationGammaLeftCensoredModel` and the hurdle
-    model `gen_PrecipitationHurdleModel` used inside parametric `QuantileMapping`, transcribed locally (the precipitation models belong to C17; no
-    `Model/Precip.lean` exists in this tree).  `Gh` = the fitted gamma cdf of `cm_hist`, `Qo` = the fitted gamma
-    ppf of `obs` are parameters constrained by monotonicity only; the draws `u` are explicit.  The tie of this
-    transcription to the code is the C09 oracle (real code) and a structural probe in `harness/c09.py`.
+  (the precipitation models inside QuantileMapping are in `Lemmas/C09Precip.lean`, on `Model/PrecipQM.lean`).
 -/
 import IbicusModel.Lemmas.C09Step6
 import IbicusModel.Lemmas.C09Deb
@@ -153,123 +149,5 @@ theorem cfgOrdered_hurs : CfgOrdered hursCfg where
     simp only [hursCfg] at h1 h2
     injection h1 with h1; injection h2 with h2
     rw [← h1, ← h2]; norm_num
-
-/-! ### left-censored gamma model inside parametric QuantileMapping (local transcription) -/
-
-/-- `gen_PrecipitationGammaLeftCensoredModel.cdf`: `gamma.cdf(where(x < thr, uniform(0, thr), x), *fit)` -/
-def censCdf (Gh : Rat → Rat) (thr x u : Rat) : Rat := Gh (if x < thr then u else x)
-
-/-- `gen_PrecipitationGammaLeftCensoredModel.ppf` (`censor_in_ppf = True`): `where(v < thr, 0, v)`, `v = gamma.ppf(q, *fit)` -/
-def censPpf (Qo : Rat → Rat) (thr q : Rat) : Rat := if Qo q < thr then 0 else Qo q
-
-/-- `_standard_qm` with the censored model: one value `x` with its draw `u` -/
-def censQM1 (Gh Qo : Rat → Rat) (thr t x u : Rat) : Rat := censPpf Qo thr (thresholdCdf t (censCdf Gh thr x u))
-
-/-- the window function with `detrending = "no_detrending"` -/
-def censQM (Gh Qo : Rat → Rat) (thr t : Rat) (F u : List Rat) : List Rat :=
-  List.zipWith (fun x r => censQM1 Gh Qo thr t x r) F u
-
-theorem censQM1_mono_in_randomized (Gh Qo : Rat → Rat) (thr t : Rat) (ht : t ≤ 1 / 2) (h0 : 0 ≤ thr)
-    (hG : MonoR Gh) (hQ : ∀ p q : Rat, t ≤ p → p ≤ q → q ≤ 1 - t → Qo p ≤ Qo q)
-    {a b : Rat} (hab : a ≤ b) :
-    censPpf Qo thr (thresholdCdf t (Gh a)) ≤ censPpf Qo thr (thresholdCdf t (Gh b)) := by
-  unfold censPpf
-  exact censor_monoR thr h0 _ _
-    (hQ _ _ (Props.C16.thresholdCdf_range t _ ht).1 (Props.C16.thresholdCdf_mono t (hG a b hab))
-      (Props.C16.thresholdCdf_range t _ ht).2)
-
-/-- **censored model, what holds for every draw**: among values at or above the censoring threshold the map is
-    monotone, and a sub-threshold value never ends up above a value at or above the threshold
-    (`0 ≤ u < thr` for the draw of the sub-threshold value) -/
-theorem censQM1_order (Gh Qo : Rat → Rat) (thr t : Rat) (ht : t ≤ 1 / 2) (h0 : 0 ≤ thr)
-    (hG : MonoR Gh) (hQ : ∀ p q : Rat, t ≤ p → p ≤ q → q ≤ 1 - t → Qo p ≤ Qo q)
-    (xi xj ui uj : Rat) (hlt : xi < xj) (hj : thr ≤ xj) (hui : ui < thr) :
-    censQM1 Gh Qo thr t xi ui ≤ censQM1 Gh Qo thr t xj uj := by
-  unfold censQM1 censCdf
-  rw [if_neg (not_lt.mpr hj)]
-  by_cases hi : xi < thr
-  · rw [if_pos hi]
-    exact censQM1_mono_in_randomized Gh Qo thr t ht h0 hG hQ (by linarith)
-  · rw [if_neg hi]
-    exact censQM1_mono_in_randomized Gh Qo thr t ht h0 hG hQ (le_of_lt hlt)
-
-/-- **F16 (known finding, inherent to censoring)**: two distinct sub-threshold inputs are re-drawn independently and
-    can come out in either order.  Concrete witness with the rational scale family `G(z) = z/(1+z)`
-    (`cm_hist` scale 1, `obs` scale 4, so the composed map is `x ↦ 4x`), `thr = 1`, `t = 1/1000`:
-    inputs `0 < 1/2`, draws `3/4`, `1/2` (both in `[0, thr)`), outputs `3 > 2`. -/
-theorem censQM_subthreshold_pair_can_invert :
-    ∃ (Gh Qo : Rat → Rat) (thr t xi xj ui uj : Rat), MonoR Gh ∧ (∀ p q : Rat, t ≤ p → p ≤ q → q ≤ 1 - t → Qo p ≤ Qo q) ∧
-      xi < xj ∧ xj < thr ∧ 0 ≤ ui ∧ ui < thr ∧ 0 ≤ uj ∧ uj < thr ∧
-      censQM1 Gh Qo thr t xj uj < censQM1 Gh Qo thr t xi ui := by
-  refine ⟨fun z => if z < 0 then 0 else z / (1 + z), fun p => 4 * (p / (1 - p)), 1, 1 / 1000, 0, 1 / 2, 3 / 4, 1 / 2,
-    ?_, ?_, by norm_num, by norm_num, by norm_num, by norm_num, by norm_num, by norm_num, ?_⟩
-  · intro a b hab
-    by_cases ha : a < 0 <;> by_cases hb : b < 0 <;> simp only [ha, hb, if_true, if_false]
-    · exact le_refl _
-    · exact div_nonneg (not_lt.mp hb) (by linarith [not_lt.mp hb])
-    · linarith [not_lt.mp ha]
-    · have h1 : (0 : Rat) < 1 + a := by linarith [not_lt.mp ha]
-      have h2 : (0 : Rat) < 1 + b := by linarith [not_lt.mp hb]
-      rw [div_le_div_iff₀ h1 h2]; nlinarith [not_lt.mp ha]
-  · intro p q hp hpq hq
-    have h1 : (0 : Rat) < 1 - p := by linarith
-    have h2 : (0 : Rat) < 1 - q := by linarith
-    have : p / (1 - p) ≤ q / (1 - q) := by
-      rw [div_le_div_iff₀ h1 h2]; nlinarith
-    linarith
-  · decide +kernel
-
-/-! ### hurdle model inside parametric QuantileMapping (local transcription, like the censored model) -/
-
-/-- `gen_PrecipitationHurdleModel.cdf` (`cdf_randomization = True`): `where(x == 0, uniform(0, p0), p0 + (1 − p0)·G(x))` -/
-def hurdleCdf (Gh : Rat → Rat) (p0 x u : Rat) : Rat := if x = 0 then u else p0 + (1 - p0) * Gh x
-
-/-- `gen_PrecipitationHurdleModel.ppf`: `where(q > p0, Q((q − p0)/(1 − p0)), 0)` -/
-def hurdlePpf (Qo : Rat → Rat) (p0 q : Rat) : Rat := if q > p0 then Qo ((q - p0) / (1 - p0)) else 0
-
-/-- `_standard_qm` with the hurdle model: one value `x` with its draw `u` -/
-def hurdleQM1 (Gh Qo : Rat → Rat) (p0h p0o t x u : Rat) : Rat :=
-  hurdlePpf Qo p0o (thresholdCdf t (hurdleCdf Gh p0h x u))
-
-theorem hurdlePpf_mono (Qo : Rat → Rat) (p0o t : Rat) (ht0 : 0 < t) (hp1 : p0o < 1)
-    (hQ : ∀ p q : Rat, 0 < p → p ≤ q → q < 1 → Qo p ≤ Qo q) (hQ0 : ∀ p : Rat, 0 < p → p < 1 → 0 ≤ Qo p)
-    {a b : Rat} (hab : a ≤ b) (hb : b ≤ 1 - t) : hurdlePpf Qo p0o a ≤ hurdlePpf Qo p0o b := by
-  have hd : 0 < 1 - p0o := by linarith
-  have arg : ∀ q, q > p0o → q ≤ 1 - t → 0 < (q - p0o) / (1 - p0o) ∧ (q - p0o) / (1 - p0o) < 1 := by
-    intro q h1 h2
-    exact ⟨div_pos (by linarith) hd, by rw [div_lt_one hd]; linarith⟩
-  unfold hurdlePpf
-  by_cases ha : a > p0o
-  · have hb' : b > p0o := lt_of_lt_of_le ha hab
-    rw [if_pos ha, if_pos hb']
-    exact hQ _ _ (arg a ha (le_trans hab hb)).1 (div_le_div_of_nonneg_right (by linarith) (le_of_lt hd)) (arg b hb' hb).2
-  · rw [if_neg ha]
-    by_cases hb' : b > p0o
-    · rw [if_pos hb']; exact hQ0 _ (arg b hb' hb).1 (arg b hb' hb).2
-    · rw [if_neg hb']
-
-/-- **hurdle model, for every draw**: zeros are randomised below `p0` (the dry fraction of `cm_hist`), positive values
-    have cdf values `≥ p0`; hence a strictly smaller value never gets a larger output.  Non-negative data;
-    `Gh` / `Qo` = fitted amounts cdf / ppf, constrained by monotonicity and non-negativity only. -/
-theorem hurdleQM1_order (Gh Qo : Rat → Rat) (p0h p0o t : Rat) (ht0 : 0 < t) (ht : t ≤ 1 / 2)
-    (hp1 : p0h ≤ 1) (hpo : p0o < 1)
-    (hG : MonoR Gh) (hG0 : ∀ z : Rat, 0 ≤ Gh z)
-    (hQ : ∀ p q : Rat, 0 < p → p ≤ q → q < 1 → Qo p ≤ Qo q) (hQ0 : ∀ p : Rat, 0 < p → p < 1 → 0 ≤ Qo p)
-    (xi xj ui uj : Rat) (hxi : 0 ≤ xi) (hlt : xi < xj) (hui : ui ≤ p0h) :
-    hurdleQM1 Gh Qo p0h p0o t xi ui ≤ hurdleQM1 Gh Qo p0h p0o t xj uj := by
-  unfold hurdleQM1
-  have hxj : xj ≠ 0 := by intro h; rw [h] at hlt; linarith
-  have hc : hurdleCdf Gh p0h xi ui ≤ hurdleCdf Gh p0h xj uj := by
-    unfold hurdleCdf
-    rw [if_neg hxj]
-    have h1 : 0 ≤ (1 - p0h) * Gh xj := mul_nonneg (by linarith) (hG0 xj)
-    by_cases h0 : xi = 0
-    · rw [if_pos h0]; linarith
-    · rw [if_neg h0]
-      have := mul_le_mul_of_nonneg_left (hG xi xj (le_of_lt hlt)) (by linarith : (0 : Rat) ≤ 1 - p0h)
-      linarith
-  exact hurdlePpf_mono Qo p0o t ht0 hpo hQ hQ0 (Props.C16.thresholdCdf_mono t hc)
-    (Props.C16.thresholdCdf_range t _ ht).2
-
 
 end Lemmas.C09
